@@ -43,9 +43,35 @@ def vocab():
         p = yparser.Parser(parms, packs)
         macs = sorted(p.the_macros)
         envs = sorted(p.the_environments)
+        global _ARGS
+        _ARGS = {m: p.the_macros[m].args for m in macs}
+        _ARGS.update({'\\begin{%s}' % e: p.the_environments[e].args for e in envs})
         _VOCAB = (macs, envs, macs + ['\\begin{%s}' % e for e in envs] + ['\\end{%s}' % e for e in envs]
                   + FRAGMENTS + FRAGMENTS)
     return _VOCAB
+
+
+_ARGS = {}
+ARG_A = ['{}', '{}', '{x}', '{a b}', '{ }', 'x', '{\\foo}', '{%\n}', ' {}', '{german}', '{1}', '{x=y}', '', '{{}}',
+         '{\\x}', '{$}', '{#1}']
+ARG_O = ['', '', '[]', '[x]', '[ ]', '[1]', '[german]', '[a=b,c]', '[{]}]', '[', '[\\foo]']
+
+
+def with_args(rnd, item):
+    """a declared macro / \\begin{env} followed by an argument skeleton built from its declared
+    argument codes: every argument empty, blank, single token, missing, braced ..."""
+    code = _ARGS.get(item)
+    if code is None:
+        return item
+    out = item
+    for c in code:
+        if c == '*':
+            out += rnd.choice(['', '', '*'])
+        elif c == 'O':
+            out += rnd.choice(ARG_O)
+        else:
+            out += rnd.choice(ARG_A)
+    return out
 
 
 DEFS = [None, None, None,
@@ -88,4 +114,6 @@ def rand_opts(rnd, allow_unkn=True):
 def soup(rnd, maxlen=40):
     v = vocab()[2]
     n = rnd.randint(1, maxlen if rnd.random() < .3 else 14)
-    return ''.join(rnd.choice(v) for _ in range(n))
+    if rnd.random() < .5:
+        return ''.join(rnd.choice(v) for _ in range(n))
+    return ''.join(with_args(rnd, rnd.choice(v)) if rnd.random() < .7 else rnd.choice(v) for _ in range(n))
